@@ -47,6 +47,10 @@ class BaseGotranODECodePrinter(StrPrinter):
     def _print_And(self, expr):
         return f"And({', '.join(self._print(a) for a in expr.args)})"
 
+    def _print_Exp1(self, expr):
+        # sympy prints Euler's number as "E", which is not part of the grammar
+        return "exp(1)"
+
     def _print_BooleanFalse(self, expr):
         return "0"
 
